@@ -331,7 +331,9 @@ impl SegmentAllocator {
             };
 
             let mut info = SegmentInfo::new(index, header);
-            info.write_position = metadata.len();
+            // A file cut short before its header block was complete still owns the
+            // header area: nothing may be placed below SEGMENT_HEADER_SIZE.
+            info.write_position = metadata.len().max(SEGMENT_HEADER_SIZE as u64);
             info.state = SegmentState::Frozen; // All loaded segments start frozen
 
             // Insert at the right position, expanding if needed
